@@ -449,7 +449,8 @@ def s2c_sessions(ctx, sessions, label, c2s_sample):
     """TLC's scripts (MC_DrangeSession) replayed in this one process, in a fixed mixed order: the process itself is one long
     history, and every call in it must still return what the law says of its own arguments.  Mismatches are classified by
     Trace_Drange; a seeded sample of all observations (thorough: all of them) is validated by Trace_Drange as well (C2S)"""
-    sessions = sorted(sessions, key=lambda h: hashlib.sha1(json.dumps(h, sort_keys=True).encode()).hexdigest())
+    sessions = {hashlib.sha1(json.dumps(h, sort_keys=True).encode()).hexdigest(): h for h in sessions}     # (the simulator may print a session twice)
+    sessions = [sessions[k] for k in sorted(sessions)]
     suspects, observations, fams, gave_up = [], [], {}, False
     for k, h in enumerate(sessions):
         steps = h['hist']
@@ -744,7 +745,7 @@ def run(ctx):
         ok = s2c_sessions(ctx, ctx.generate('MC_DrangeSession', 'MC_DrangeSession_gen.cfg' if ctx.quick else 'MC_DrangeSession_gen2.cfg'),
                           'scripts', 2500 if ctx.quick else None)
         if ok and not ctx.quick:
-            sim = ctx.generate('MC_DrangeSession', 'MC_DrangeSession_sim.cfg', simulate=3000, depth=9, seed=ctx.seed + 10, workers=1)
+            sim = ctx.generate('MC_DrangeSession', 'MC_DrangeSession_sim.cfg', simulate=800, depth=9, seed=ctx.seed + 10, workers=1)
             ok = s2c_sessions(ctx, sim, 'simulated', None)
         if ok and s2c(ctx, ctx.generate('MC_Drange', 'MC_Drange_gen.cfg' if ctx.quick else 'MC_Drange_gen2.cfg')):
             c2s(ctx, *((1500, 60, False, 400) if ctx.quick else (20000, 600, True, 6000)))
